@@ -26,11 +26,16 @@ def gen_prog(rng, n=None, mem=True, patch=False, loop=None):
     prog = []
     loop = rng.random() < 0.5 if loop is None else loop
     loop_at = rng.randrange(1, n) if loop and n >= 3 else None
+    use_loop_ins = loop_at is not None and rng.random() < 0.4
     for s in range(n):
-        if loop_at is not None and s == loop_at and s + 1 < n:
+        if use_loop_ins and s == loop_at:
+            # LOOP decrements cnt and branches while it is not zero; it may branch to itself
+            prog.append({"k": "LOOP", "t": rng.choice([s, s, rng.randrange(0, s + 1)])})
+            continue
+        if loop_at is not None and not use_loop_ins and s == loop_at and s + 1 < n:
             prog.append({"k": "DEC"})
             continue
-        if loop_at is not None and s == loop_at + 1 and prog[-1]["k"] == "DEC":
+        if loop_at is not None and not use_loop_ins and s == loop_at + 1 and prog[-1]["k"] == "DEC":
             prog.append({"k": "JNZ", "t": rng.randrange(0, loop_at + 1)})
             continue
         c = rng.random()
@@ -232,3 +237,10 @@ def describe(job):
     item, script, backend, cfg = job
     return {"backend": backend, "config": cfg, "program": item["prog"], "script": script, "pages": [(hex(p["base"]), p["perm"]) for p in item["pages"]],
             "stack_mapped": item["stackok"], "acc": item["acc"], "cnt": item["cnt"]}
+
+
+def gen_mbp(rng):
+    """a memory breakpoint on the data window: read, write or both, 1-4 bytes, possibly straddling the page end"""
+    a = rng.choice([P0, P0 + 1, P0 + 2, P0 + 0xffd, P0 + 0xfff, P1, P1 + 1])
+    r = rng.random() < 0.6
+    return {"c": "addmbp", "a": a, "n": rng.choice([1, 1, 2, 4]), "r": r, "w": (not r) or rng.random() < 0.4}
